@@ -49,13 +49,16 @@ NoApp == [some |-> FALSE]
 AppV(code, pay, opts) == [some |-> TRUE, v |-> [code |-> code, pay |-> pay, opts |-> opts]]
 
 \* upload of n blocks (szx 0) / download of n blocks (szx 0), for one key
-UploadScript(ep, code, segs, n, salt) ==
-  [k \in 1 .. n |-> ScriptStep(ep, MkReq(0, code, salt * 100 + k, segs, Bv(k - 1, k < n, 0), None,
+UploadScriptM(ep, code, segs, n, salt, mb) ==
+  [k \in 1 .. n |-> ScriptStep(ep, MkReq(0, code, mb + k, segs, Bv(k - 1, k < n, 0), None,
                                           Chunk(Body(16 * n - 5, salt), k - 1, 16), 0),
                                AppV(68, << >>, << >>))]
-DownloadScript(ep, code, segs, n, salt) ==
-  [k \in 1 .. n |-> ScriptStep(ep, MkReq(0, code, salt * 100 + k, segs, None, Bv(k - 1, FALSE, 0), << >>, 0),
+DownloadScriptM(ep, code, segs, n, salt, mb) ==
+  [k \in 1 .. n |-> ScriptStep(ep, MkReq(0, code, mb + k, segs, None, Bv(k - 1, FALSE, 0), << >>, 0),
                                AppV(69, Body(16 * n - 3, salt), << << 4, << << salt >> >> >> >>))]
+
+UploadScript(ep, code, segs, n, salt) == UploadScriptM(ep, code, segs, n, salt, salt * 100)
+DownloadScript(ep, code, segs, n, salt) == DownloadScriptM(ep, code, segs, n, salt, salt * 100)
 
 (* ---- one call on the whole cache -------------------------------------------------- *)
 \* cache: key -> [e, touched]; returns [cache, resp (option), out, reqpay]
@@ -92,6 +95,11 @@ KeySets ==
          << UploadScript("e1", 3, << SegA, SegB >>, IsoLen, 1), DownloadScript("e1", 2, << SegA, SegB >>, IsoLen, 2) >>,
          << DownloadScript("e1", 1, << SegA >>, 3, 1), DownloadScript("e1", 5, << SegA >>, 3, 2), UploadScript("e2", 1, << SegA >>, 3, 3) >> }
 
+\* MODE = split: the two entry points of an exchange are separate steps (an application that answers
+\* later), so requests of different endpoints - here with EQUAL message ids - are in flight together
+SplitKeySets == { << DownloadScriptM("e1", 1, << SegA >>, 2, 1, 500), DownloadScriptM("e2", 1, << SegA >>, 2, 2, 500) >>,
+                  << DownloadScriptM("e1", 1, << SegA >>, 2, 1, 500), UploadScriptM("e2", 3, << SegA >>, 2, 2, 500) >> }
+
 HostileBudgets == IF Full THEN { 0, 19, 20, 21, 32, 1152, 5000 } ELSE { 0, 21, 32, 1152 }
 HNums == IF Full THEN { 0, 1, 2, 100, 4095 } ELSE { 0, 1, 100 }
 HSzx == { 0, 6, 7 }
@@ -107,18 +115,20 @@ HostileReqs ==
 HostileApps == { AppV(69, << >>, << >>), AppV(69, Zeros(40), << >>), AppV(69, Zeros(3000), << << 4, << << 1 >> >> >> >>),
                  AppV(69, Zeros(100), << << OPT_BLOCK2, << << 2 >> >> >> >>) }
 
-VARIABLES cfg, cache, clock, pos, sched, resps, viol, h, last
-vars == << cfg, cache, clock, pos, sched, resps, viol, h, last >>
+VARIABLES cfg, cache, clock, pos, sched, resps, viol, h, last, pend
+vars == << cfg, cache, clock, pos, sched, resps, viol, h, last, pend >>
 
 ExpiryScripts == << DownloadScript("e1", 1, << SegA >>, 3, 1), UploadScript("e1", 3, << SegB >>, 3, 2) >>
 
 Init ==
   /\ cache = << >> /\ clock = 0 /\ sched = << >> /\ viol = << >> /\ h = << >> /\ last = [k |-> "none"]
   /\ IF Mode = "iso" THEN \E ks \in KeySets : cfg = [M |-> 1152, scripts |-> ks]
+     ELSE IF Mode = "split" THEN \E ks \in SplitKeySets : cfg = [M |-> 1152, scripts |-> ks]
      ELSE IF Mode = "expiry" THEN cfg = [M |-> 1152, scripts |-> ExpiryScripts]
      ELSE \E m \in HostileBudgets : cfg = [M |-> m, scripts |-> << >>]
   /\ pos = [i \in 1 .. Len(cfg.scripts) |-> 0]
   /\ resps = [i \in 1 .. Len(cfg.scripts) |-> << >>]
+  /\ pend = [i \in 1 .. Len(cfg.scripts) |-> None]
 
 Check(cond, what) == IF cond THEN << >> ELSE << what >>
 
@@ -168,11 +178,11 @@ TransferStep(i) ==
           \o Check(c.out.k = "ok" => ReplyIdentity(stp.req, c.resp), "reply does not carry the current request's id/token")
           \o (IF Mode = "iso" THEN Check(c.resp = Solo(cfg.scripts[i], cfg.M)[pos[i] + 1], "response differs from the solo run") ELSE << >>)
           \o (IF Mode = "expiry" THEN ExpiryChecks(i, stp, c) ELSE << >>)
-     /\ UNCHANGED << cfg, clock >>
+     /\ UNCHANGED << cfg, clock, pend >>
 
 Tick == /\ Mode = "expiry" /\ clock < 6 /\ Len(h) < Depth
         /\ clock' = clock + 1 /\ h' = Append(h, [op |-> "sleep", ticks |-> 1]) /\ last' = [k |-> "tick"]
-        /\ UNCHANGED << cfg, cache, pos, sched, resps, viol >>
+        /\ UNCHANGED << cfg, cache, pos, sched, resps, viol, pend >>
 
 Other == /\ Mode = "expiry" /\ Len(h) < Depth
          \* unrelated traffic: a request on another key whose reply is itself served block-wise
@@ -182,7 +192,7 @@ Other == /\ Mode = "expiry" /\ Len(h) < Depth
             /\ cache' = c.cache /\ h' = Append(h, stp) /\ last' = [k |-> "other"]
             /\ viol' = viol \o Check(OthersUntouched(Purged(cache, clock, TTL), c.cache, c.key, clock), "another key's entry changed")
                             \o Check(\A q \in DOMAIN c.cache : c.cache[q].touched + TTL >= clock, "expired entry survived a handler call")
-            /\ UNCHANGED << cfg, clock, pos, sched, resps >>
+            /\ UNCHANGED << cfg, clock, pos, sched, resps, pend >>
 
 HostileStep ==
   /\ Mode = "hostile" /\ Len(h) < Depth
@@ -191,9 +201,43 @@ HostileStep ==
            c == Call(cache, clock, cfg.M, stp) IN
        /\ cache' = c.cache /\ h' = Append(h, stp) /\ last' = [k |-> "hostile"]
        /\ viol' = viol \o HostileChecks(c, req)
-       /\ UNCHANGED << cfg, clock, pos, sched, resps >>
+       /\ UNCHANGED << cfg, clock, pos, sched, resps, pend >>
+
+\* the request half of an exchange: if it reaches the application the exchange stays pending
+SplitReq(i) ==
+  /\ Mode = "split" /\ ~pend[i].some /\ pos[i] < Len(cfg.scripts[i])
+  /\ LET stp == cfg.scripts[i][pos[i] + 1]
+         k == KeyOf(stp.req, stp.ep)
+         pre == Lookup(cache, k, clock, TTL)
+         x == InterceptRequest(pre, stp.req, cfg.M)
+         goes == x.out = OkR(FALSE) /\ x.resp.some /\ stp.app.some IN
+     /\ cache' = Store(cache, k, x.st, clock, TTL)
+     /\ h' = Append(h, [op |-> "ireq_only", ep |-> stp.ep, req |-> stp.req])
+     /\ sched' = Append(sched, i) /\ last' = [k |-> "splitreq"]
+     /\ viol' = viol \o Check(OthersUntouched(Purged(cache, clock, TTL), cache', k, clock), "another key's entry changed")
+     /\ IF goes THEN pend' = [pend EXCEPT ![i] = Some([stp |-> stp, resp |-> x.resp.v])] /\ UNCHANGED << pos, resps >>
+        ELSE /\ pend' = pend /\ pos' = [pos EXCEPT ![i] = @ + 1] /\ resps' = [resps EXCEPT ![i] = Append(@, x.resp)]
+     /\ UNCHANGED << cfg, clock >>
+\* the response half, possibly after other endpoints' requests (with the same message id) came in
+SplitResp(i) ==
+  /\ Mode = "split" /\ pend[i].some
+  /\ LET stp == pend[i].v.stp
+         k == KeyOf(stp.req, stp.ep)
+         pre == Lookup(cache, k, clock, TTL)
+         a == [pend[i].v.resp EXCEPT !.code = stp.app.v.code, !.pay = stp.app.v.pay, !.opts = CopyOpts(@, stp.app.v.opts)]
+         y == InterceptResponse(pre, Some(a), cfg.M) IN
+     /\ cache' = Store(cache, k, y.st, clock, TTL)
+     /\ h' = Append(h, [op |-> "iresp_only", ep |-> stp.ep, mid |-> stp.req.mid, app |-> stp.app])
+     /\ sched' = Append(sched, i) /\ last' = [k |-> "splitresp"]
+     /\ pend' = [pend EXCEPT ![i] = None] /\ pos' = [pos EXCEPT ![i] = @ + 1]
+     /\ resps' = [resps EXCEPT ![i] = Append(@, y.resp)]
+     /\ viol' = viol \o Check(OthersUntouched(Purged(cache, clock, TTL), cache', k, clock), "another key's entry changed")
+                     \o Check(y.resp = Solo(cfg.scripts[i], cfg.M)[pos[i] + 1], "response differs from the solo run")
+                     \o Check(ReplyIdentity(stp.req, y.resp), "reply does not carry the current request's id/token")
+     /\ UNCHANGED << cfg, clock >>
 
 Next == \/ (Mode \in {"iso", "expiry"} /\ \E i \in 1 .. Len(cfg.scripts) : TransferStep(i))
+        \/ (\E i \in 1 .. Len(cfg.scripts) : SplitReq(i) \/ SplitResp(i))
         \/ Tick \/ Other \/ HostileStep
 Spec == Init /\ [][Next]_vars
 
@@ -203,15 +247,15 @@ AllDone == \A i \in 1 .. Len(cfg.scripts) : pos[i] = Len(cfg.scripts[i])
 
 \* iso keeps the schedule in the state (every interleaving is a distinct behaviour);
 \* the other modes merge on cache contents
-View == IF Mode = "iso" THEN << cfg, cache, pos, sched, viol >> ELSE << cfg, cache, clock, pos, viol >>
+View == IF Mode \in {"iso", "split"} THEN << cfg, cache, pos, sched, viol, pend >> ELSE << cfg, cache, clock, pos, viol >>
 
 Sampled == Mode # "expiry" \/ (Len(h') = Depth /\ (clock' * 7 + Len(SelectSeq(h', LAMBDA s : s.op = "sleep")) * 3 + pos'[1] * 5 + pos'[2]) % 4 = 0)
-EmitNow == IF Mode = "iso" THEN \A i \in 1 .. Len(cfg.scripts) : pos'[i] = Len(cfg.scripts[i])
+EmitNow == IF Mode \in {"iso", "split"} THEN \A i \in 1 .. Len(cfg.scripts) : pos'[i] = Len(cfg.scripts[i])
            ELSE IF Mode = "hostile" THEN TRUE ELSE Sampled
 \* long runs of zero bytes are written as {"z": n} so that lines stay short
 Z(v) == IF Len(v) > 24 /\ v = Zeros(Len(v)) THEN [z |-> Len(v)] ELSE v
 ZOpts(opts) == [i \in 1 .. Len(opts) |-> << opts[i][1], [j \in 1 .. Len(opts[i][2]) |-> Z(opts[i][2][j])] >>]
-ZStep(stp) == IF stp.op # "ireq" THEN stp
+ZStep(stp) == IF stp.op # "ireq" THEN stp   \* (sleep, ireq_only, iresp_only: small)
               ELSE [stp EXCEPT !.req = [@ EXCEPT !.pay = Z(@), !.opts = ZOpts(@)],
                                !.app = IF @.some THEN [@ EXCEPT !.v = [@ EXCEPT !.pay = Z(@), !.opts = ZOpts(@)]] ELSE @]
 Emit == (EmitOn /\ EmitNow) =>
